@@ -56,7 +56,7 @@ def gen_charges(rng, shells):
 
 
 def gen_cases(tier, seed):
-    reps = 3 if tier == "quick" else 60
+    reps = 3 if tier == "quick" else 180
     cases = []
     for rep in range(reps):
         for (la, lb) in itertools.product(range(6), repeat=2):
